@@ -46,7 +46,7 @@ def gen_world(rng):
         cls = rng.weighted([("simple", 1 if not system else 0), ("inflow", 4), ("stockdriven", 4)])
         s = {"cls": cls, "lt": rng.choice(list(LT)), "lt_as": rng.choice(["class", "instance", "instance_prms"]),
              "solver": rng.choice(["manual", "lapack"]), "inflow_at": rng.choice(["start", "middle", "end"]),
-             "n_pts": rng.choice([1, 1, 2, 3, 5]), "share": None}
+             "n_pts": rng.choice([1, 1, 2, 3, 5, 10]), "share": None}
         if k == 1 and stocks[0]["cls"] != "simple" and cls != "simple" and rng.chance(0.6):
             s["share"] = 0
             s["lt"] = stocks[0]["lt"]
